@@ -429,7 +429,7 @@ func buildSetupRequest(rpp, nasPdu string, itemNas, transfer []byte, more ...[]b
 // SCTPConn wrapper only reads and writes the descriptor). The peer reads the UL NAS TRANSPORT, answers with the
 // setup request and reads the setup response.
 func opEstablish(a []string) string {
-	if len(a) != 4 && len(a) != 6 {
+	if len(a) != 4 && len(a) != 6 && len(a) != 5 {
 		panic(badArg{})
 	}
 	var more [][]byte
@@ -437,6 +437,24 @@ func opEstablish(a []string) string {
 		more = [][]byte{aHex(a[4]), aHex(a[5])}
 	}
 	req := buildSetupRequest(a[0], a[1], aHex(a[2]), aHex(a[3]), more...)
+	if len(a) == 5 {
+		// one more IE, of an id this release of the message does not have (UE Aggregate Maximum Bit Rate, id 110, criticality
+		// ignore, as later releases of TS 38.413 append it), spliced into the encoding: ignored by the receiver
+		if a[4] != "u" {
+			panic(badArg{})
+		}
+		_, lSize, count, ies, ok := ngapWalk(req)
+		if !ok {
+			panic(badArg{})
+		}
+		var raw [][]byte
+		for _, ie := range ies {
+			raw = append(raw, append([]byte{}, req[ie.off:ie.valOff+ie.l]...))
+		}
+		val := []byte{0x18, 0x3b, 0x9a, 0xca, 0x00, 0x18, 0x3b, 0x9a, 0xca, 0x00} // two bit rates of 1 Gbit/s
+		unk := append([]byte{0x00, 110, 0x40}, append(perLenEnc(len(val)), val...)...)
+		req = ngapAssemble(req[:3], req[3+lSize], count+1, append(raw, unk), nil)
+	}
 	if len(req) > 2048 {
 		panic(badArg{}) // EstablishPDU reads into a 2048 octet buffer
 	}
@@ -635,6 +653,10 @@ func extractDomain(e *emitter) {
 			np = hx(e.bytes(1 + r.Intn(20)))
 		}
 		if len(buildAccept(ap))+len(buildTransfer(tp)) > 1800 {
+			continue
+		}
+		if k%3 == 1 {
+			e.op("establish", rpp, np, hx(buildAccept(ap)), hx(buildTransfer(tp)), "u")
 			continue
 		}
 		if k%3 == 2 {
